@@ -59,6 +59,11 @@ Items == {Star, Item(A, ""), Item(A, "x"), Item(NP, ""), Item(NP, "a"), Item(M, 
 Lists == SeqsFromTo(Items, 1, 3)
 \* FUSE: the keys of an object blended into the row (n = {p, q}), under a prefix when the item has an alias; items before
 \* and after it that carry one of those names (later wins); FUSE of a missing column is an ordinary NULL column
+\* columns whose names are no plain words (`k l`, a two-byte letter, `m-c`): names of the row like any other
+KL == Col("k l")
+OddLists == {<<Item(KL, "")>>, <<Item(KL, "v"), Item(A, "")>>, <<Item(Bin("+", KL, LN(1)), "w"), Item(Col("m-c"), "")>>, <<Star, Item(KL, "z")>>,
+             <<Item(CaseE(<<[c |-> CmpE(">", KL, LN(7)), v |-> Col("m-c")]>>, KL), "c")>>}
+OddRow(r) == Row(("k l" :> r.f["a"]) @@ ("m-c" :> r.f["f"]) @@ r.f)
 FuseI(e, as) == Item([k |-> "fn", f |-> "fuse", args |-> <<e>>], as)
 FuseItems == {FuseI(Col("n"), ""), FuseI(Col("n"), "z"), FuseI(ColP(<<"n", "q">>), ""), FuseI(M, "z")}
 Others == {Item(A, "p"), Item(A, "z.p"), Item(B, "r"), Item(NP, "q")}
@@ -77,6 +82,9 @@ Init ==
             /\ Defined(cs.q, cs.doc)
        \/ \E tbl \in SeqsUpTo(Rows, MaxRows) : \E sl \in Lists : \E w \in Wheres :
             /\ cs = [fam |-> "list", q |-> [BaseQ EXCEPT !.sel = sl, !.where = w], doc |-> Doc1("t", tbl)]
+       \/ \E tbl \in SeqsUpTo({OddRow(r) : r \in {x \in Rows : "b" \in DOMAIN x.f}}, MaxRows) : \E sl \in OddLists : \E w \in Wheres \cup {CmpE(">", KL, LN(0))} :
+            /\ cs = [fam |-> "list", q |-> [BaseQ EXCEPT !.sel = sl, !.where = w], doc |-> Doc1("t", tbl)]
+            /\ Defined(cs.q, cs.doc)
        \/ \E tbl \in SeqsUpTo(Rows, MaxRows) : \E sl \in FuseLists : \E w \in Wheres :
             /\ cs = [fam |-> "fuse", q |-> [BaseQ EXCEPT !.sel = sl, !.where = w], doc |-> Doc1("t", tbl)]
     /\ EngineInit
